@@ -31,6 +31,9 @@ DEFAULT_W = dict(
     shadow=0.03,         # one key provided in a scope and in an ancestor, decorated on the path, consumed below
     vizgroup=0.0,        # a value group with failing members, consumed and drawn with that Invoke's error
     loc=0.03,            # Provide carries dig.LocationForPC
+    ascollide=0.0,       # a constructor whose As list collides, in its second or later entry, with a key the scope already provides
+    nilmembers=0.0,      # value groups of interface / pointer element type fed nil members (plain and inside flattened slices)
+    nilvals=0.05,        # share of scripted executions that return zero values (nil pointers, nil interfaces, slices of nil elements)
     staleundo=0.01,      # an operation rejected before anything is parsed, right after a success, then a Provide that leans on that success
     deferleak=0.01,      # (deferred verification) an unverified cycle below a verified scope, a rejected Provide above, an Invoke below
     softpair=0.0,        # two adjacent soft groups followed by a field whose multi-result constructor feeds the second
@@ -309,8 +312,16 @@ class Gen:
                 lst = r.choice([[23, 20], [23, 22], [20, 23], [23, 20, 22], [22, 23, 20]])
                 opts["as"] = [{"iface": i} for i in lst]
                 opts["opts"].append("as")
+            elif self.p("as_") and r.random() < 0.2 and "flatten" not in opts["group"]:
+                # twin interfaces: a result whose own type is an interface, provided As another interface type with the
+                # very same method set (20 and 24) -- a different key
+                own, twin = r.choice([(20, 24), (24, 20)])
+                outs = r.choice([[u(own)], [u(own)], [u(own), u(r.choice([10, 11]))], [u(23)]])
+                lst = r.choice([[twin], [twin], [twin, own], [own, twin], [twin, 22]])
+                opts["as"] = [{"iface": i} for i in lst]
+                opts["opts"].append("as")
             elif self.p("as_"):
-                cands = [i for i in IF if i in IMPLS.get(ty, [])]
+                cands = [i for i in IF + [24] if i in IMPLS.get(ty, [])]
                 if cands and len(outs) == 1 and "flatten" not in opts["group"]:
                     k = r.choice([1, 1, 2])
                     opts["as"] = [{"iface": i} for i in r.sample(cands, min(k, len(cands)))]
@@ -339,8 +350,13 @@ class Gen:
                 k = "err"
             elif c < self.w["fault"]:
                 k = "panic"
-            behs.append({"k": k, "len": self.r.choice([0, 1, 1, 2, 2, 3]), "dt": self.r.randrange(0, 10),
-                         "eslot": self.r.choice([0, 0, 1])})
+            b = {"k": k, "len": self.r.choice([0, 1, 1, 2, 2, 3]), "dt": self.r.randrange(0, 10),
+                 "eslot": self.r.choice([0, 0, 1])}
+            if k == "err" and self.r.random() < 0.12:
+                b["tnil"] = True        # the error returned is a typed nil pointer: not nil, hence a failure
+            if self.r.random() < self.w["nilvals"]:
+                b["len"] = 1000 + self.r.choice([0, 1, 2, 2])   # zero values: nil pointers / interfaces, slices of nil elements
+            behs.append(b)
         if behs:
             self.script[str(fid)] = behs
         return fid
@@ -348,7 +364,7 @@ class Gen:
     # ---- malformed stream
     def malformed_fn(self):
         r = self.r
-        c = r.randrange(0, 33)
+        c = r.randrange(0, 35)
         ty = r.choice(PT)
         if c == 0:
             return self.new_fn([], [], nonfunc=r.choice(["nil", "int", "ptr", "struct", "nilfunc", "nilfunc1"]))
@@ -410,6 +426,13 @@ class Gen:
             return self.new_fn([self.st([self.in_field(), self.field("A", u(r.choice([80, 81, 86])), tg)])], [u(r.choice(PT))])
         if c == 32:  # an array-typed result (never Huge: fmt would print 2^61 elements in Scope.String)
             return self.new_fn([], [u(80)] + ([u(0)] if r.random() < 0.5 else []))
+        if c in (33, 34):  # an embedded struct of an unexported type in a dig.Out / dig.In (generated-source mode only: reflect.StructOf cannot build it)
+            inner = self.st([self.field("X", u(ty))] + ([self.field("Y", u(r.choice(PT)))] if r.random() < 0.4 else []))
+            emb = self.field("meta", inner, x=False, anon=True)
+            if c == 33:
+                return self.new_fn([], [self.st([self.out_field(), emb, self.field("A", u(r.choice(PT)))])])
+            tg = r.choice([{}, {"ignore-unexported": "true"}])
+            return self.new_fn([self.st([self.in_field(tg), emb, self.field("A", u(ty))])], [u(r.choice(PT))])
         if c == 24:  # a plain struct (no In/Out) as parameter and as result
             plain = self.st([self.field("A", u(ty)), self.field("B", u(r.choice(PT)))])
             return self.new_fn([plain] if r.random() < 0.5 else [], [plain])
@@ -426,7 +449,7 @@ class Gen:
             return self.new_fn([self.st([self.in_field(), self.field("G", u(self.slice_of(ty)), {"group": g})])],
                                [self.st([self.out_field(), self.field("G", u(ty), {"group": g})])])
         if c == 29:  # an interface-typed result (As naming the result's own type is skipped by dig)
-            return self.new_fn([], [u(r.choice(IF))] + ([u(0)] if r.random() < 0.3 else []))
+            return self.new_fn([], [u(r.choice(IF + [24, 24]))] + ([u(0)] if r.random() < 0.3 else []))
         # c == 25: group tag on a nested In object field / name tag on a nested object (ignored by dig)
         inner = self.st([self.in_field(), self.field("X", u(ty))])
         return self.new_fn([self.st([self.in_field(), self.field("O", inner, {"name": "zz", "optional": "maybe"})])], [u(r.choice(PT))])
@@ -440,7 +463,7 @@ class Gen:
             return opts
         if c == 10:
             # As naming interfaces in general, possibly the result's own (interface) type
-            opts["as"] = [{"iface": i} for i in r.sample(IF, r.choice([1, 2]))]; opts["opts"] = list(set(opts["opts"]) | {"as"})
+            opts["as"] = [{"iface": i} for i in r.sample(IF + [24], r.choice([1, 2]))]; opts["opts"] = list(set(opts["opts"]) | {"as"})
             return opts
         if c == 0:
             opts.update(name="n1", group="g"); opts["opts"] = ["name", "group"]
@@ -994,6 +1017,92 @@ class Gen:
         for _ in range(r.choice([1, 1, 2])):
             self.ops.append({"op": "invoke", "scope": isc, "fn": cons, "info": False})
 
+    # ---- "As collision": every key of an As list is checked against the scope, not only the first
+    def op_as_collide(self):
+        r = self.r
+        sc = r.randrange(0, self.nscopes)
+        nm = r.choice(["", "", "n1"])
+        k = r.choice([20, 22, 24, 21])
+        impls = [t for t in (10, 11, 12) if k in IMPLS.get(t, [])]
+        others = [i for i in (20, 21, 22, 24) if i != k]
+
+        def provide(scope, outs, as_, name):
+            fid = self.new_fn([], outs)
+            o = {"name": name, "group": "", "as": [{"iface": i} for i in as_], "opts": (["as"] if as_ else []) + (["name"] if name else [])}
+            self.ops.append({"op": "provide", "scope": scope, "fn": fid, "name": name, "group": "", "as": o["as"],
+                             "export": False, "cb": self.p("cb"), "info": r.random() < 0.3, "opts": sorted(set(o["opts"]))})
+            self.record_results(scope, outs, o, False, deps_ok=True)
+        first = r.choice(impls)
+        # the key is there already: provided As it, or by a constructor of that very interface type
+        if r.random() < 0.7:
+            provide(sc, [u(first)], [k], nm)
+        else:
+            provide(sc, [u(k)], [], nm)
+        cons_k = self.new_fn([self.single_in(k, nm)], [])
+        below = [x for x in range(self.nscopes) if sc in self.anc(x)]
+        if r.random() < 0.6:
+            self.ops.append({"op": "invoke", "scope": r.choice(below), "fn": cons_k, "info": False})
+        # the newcomer: the colliding key stands first, in the middle or last in its As list
+        second = r.choice([t for t in (10, 11) if t != first] or [11])
+        oth = [i for i in others if i in IMPLS.get(second, [])] or [22]
+        lst = r.choice([[oth[0], k], [oth[0], k], [k, oth[0]], [oth[0], k, oth[-1]], [oth[0], oth[-1], k]])
+        lst = [i for j, i in enumerate(lst) if i not in lst[:j] and i in IMPLS.get(second, [])]
+        where = sc if r.random() < 0.75 else r.choice(below)
+        provide(where, [u(second)], lst, nm)
+        cons_o = self.new_fn([self.single_in(oth[0], nm, optional=r.random() < 0.3)], [])
+        self.ops.append({"op": "invoke", "scope": r.choice(below), "fn": cons_o, "info": False})
+        self.ops.append({"op": "invoke", "scope": r.choice(below), "fn": cons_k, "info": False})
+
+    # ---- "nil members": a nil pointer / nil interface is a value like any other, also inside a flattened slice
+    def op_nil_members(self):
+        r = self.r
+        sc = r.randrange(0, self.nscopes)
+        elem = r.choice([20, 21, 22, 20, 10, 11])
+        g = r.choice(GROUPS)
+        sl = self.slice_of(elem)
+        anc = self.anc(sc)
+        impl = [t for t in (10, 11, 12) if elem in IMPLS.get(t, [])] if elem >= 20 else [elem]
+
+        def provide(scope, outs, opts, zero=None):
+            fid = self.new_fn([], outs)
+            if zero is not None:
+                self.script[str(fid)] = [{"k": "ok", "len": 1000 + zero, "dt": 0, "eslot": 0}]
+            o = {"name": "", "group": "", "as": [], "opts": []}
+            o.update(opts)
+            self.ops.append({"op": "provide", "scope": scope, "fn": fid, "name": o["name"], "group": o["group"], "as": o["as"],
+                             "export": False, "cb": self.p("cb"), "info": False, "opts": sorted(set(o["opts"]))})
+            self.record_results(scope, outs, o, False, deps_ok=True)
+        n = 0
+        for _ in range(r.choice([2, 3, 3, 4])):
+            c = r.random()
+            where = r.choice(anc)
+            if c < 0.35:      # a flattened slice of nil elements
+                provide(where, [u(sl)], {"group": g + ",flatten", "opts": ["group"]}, zero=r.choice([1, 2, 2, 3]))
+            elif c < 0.55:    # one nil member
+                provide(where, [u(elem)], {"group": g, "opts": ["group"]}, zero=0)
+            elif c < 0.7 and elem >= 20:   # a nil pointer provided As the interface: a non-nil interface value
+                provide(where, [u(r.choice(impl))], {"group": g, "as": [{"iface": elem}], "opts": ["group", "as"]}, zero=0)
+            elif c < 0.85:    # an ordinary flattened slice
+                provide(where, [u(sl)], {"group": g + ",flatten", "opts": ["group"]})
+            else:
+                provide(where, [u(elem)], {"group": g, "opts": ["group"]})
+            n += 1
+        gin = self.st([self.in_field(), self.field("G", u(sl), {"group": g})])
+        cons = self.new_fn([gin], [])
+        below = [x for x in range(self.nscopes) if sc in self.anc(x)]
+        self.invokers.append((cons, sc))
+        for _ in range(r.choice([1, 2])):
+            self.ops.append({"op": "invoke", "scope": r.choice(below), "fn": cons, "info": False})
+        # and a single nil value, consumed directly
+        (vt, vn) = self.fresh_key()
+        fid = self.new_fn([], [u(vt)])
+        self.script[str(fid)] = [{"k": "ok", "len": 1000, "dt": 0, "eslot": 0}]
+        self.ops.append({"op": "provide", "scope": sc, "fn": fid, "name": vn, "group": "", "as": [], "export": False,
+                         "cb": False, "info": False, "opts": ["name"] if vn else []})
+        self.provided.append((sc, vt, vn))
+        c1 = self.new_fn([self.single_in(vt, vn)], [])
+        self.ops.append({"op": "invoke", "scope": r.choice(below), "fn": c1, "info": False})
+
     # ---- shadowing: one key provided in a scope and in an ancestor, decorated somewhere on the path, consumed below
     def op_shadow_web(self):
         """the same key K provided in a scope L and in an ancestor A of L (the nearer one possibly unbuildable: a
@@ -1362,6 +1471,12 @@ class Gen:
                 continue
             if r.random() < self.w["softpair"]:
                 self.op_soft_pair()
+                continue
+            if r.random() < self.w["ascollide"]:
+                self.op_as_collide()
+                continue
+            if r.random() < self.w["nilmembers"]:
+                self.op_nil_members()
                 continue
             if r.random() < self.w["retry"]:
                 self.op_retry_web()
